@@ -11,6 +11,7 @@ def errName : CondErr → String
   | .noUncertaintyInput => "ValueError:noUncertaintyInput"
   | .bothSigmaAndFactor => "ValueError:bothSigmaAndFactor"
   | .notPosDef => "ValueError:notPosDef"
+  | .noiseShape => "ValueError:noiseShape"
   | .noCovariance => "ValueError:noCovariance"
   | .noUncertainty => "ValueError:noUncertainty"
   | .internal => "Internal"
